@@ -51,4 +51,5 @@ def run(rep, fb, tier):
     _pr6.rule_py_behaviorof_args(rep)
     _pr6.rule_py_numfields_sentinel(rep)
     _pb6.rule_py_record_methods(rep)
+    _pr6.rule_py_record_field_trim(rep)
     rep.units = fb.units
